@@ -245,11 +245,13 @@ def builtinSig : String → Option (List Ty × Ty)
   | "uint64_to_string" => some ([.int 64 false], .string)
   | "string_print" => some ([.string], .unit)
   | "string_println" => some ([.string], .unit)
+  | "string_len" => some ([.string], .int 32 true)
   | _ => none
 
 def builtinNames : List String :=
   ["unit_to_string", "bool_to_string", "int8_to_string", "int16_to_string", "int32_to_string", "int64_to_string",
-   "uint8_to_string", "uint16_to_string", "uint32_to_string", "uint64_to_string", "string_print", "string_println"]
+   "uint8_to_string", "uint16_to_string", "uint32_to_string", "uint64_to_string", "string_print", "string_println",
+   "string_len"]
 
 /-- callee names `compile_cexpr` treats specially (array / ref / vec helpers, `missing`) -/
 def specialCallees : List String :=
